@@ -26,142 +26,262 @@ func init() {
 
 // evalDecision interprets fn's CFG with concrete mode and concrete outcomes of the opaque predicate calls.
 // It returns the boolean result, or an error string if the function leaves the interpreted fragment.
+// decisionFunc is a function value met while evaluating the decision: the function and, for a closure, what it
+// captured.
+type decisionFunc struct {
+	fn   *ssa.Function
+	bind []ssa.Value
+	env  *decisionFrame // the frame that made the closure (to evaluate the captured values)
+}
+
+type decisionFrame struct {
+	fn   *ssa.Function
+	args []any
+	free []any
+}
+
+// evalDecision evaluates the boolean decision function fn for one exclusion mode and one outcome of the three
+// predicates, on the SSA form: integers, booleans, the node-type test and function values (a strategy chosen once per
+// mode by a factory and kept in a field or a local) are interpreted, module functions are entered, anything else is
+// outside the fragment.
 func evalDecision(fn *ssa.Function, mode int64, preds map[string]bool) (bool, string) {
-	var prev *ssa.BasicBlock
-	b := fn.Blocks[0]
-	env := map[ssa.Value]any{}
-	var eval func(v ssa.Value) (any, string)
-	eval = func(v ssa.Value) (any, string) {
-		if x, ok := env[v]; ok {
-			return x, ""
+	isModeType := func(t types.Type) bool {
+		nt, ok := t.(*types.Named)
+		return ok && nt.Obj().Name() == "NavigationExclusionMode"
+	}
+	var run func(fr *decisionFrame, depth int) (any, string)
+	run = func(fr *decisionFrame, depth int) (any, string) {
+		if depth > 6 || len(fr.fn.Blocks) == 0 {
+			return nil, "call depth"
 		}
-		switch t := v.(type) {
-		case *ssa.Const:
-			if t.Value == nil {
-				return nil, "nil constant"
-			}
-			switch t.Value.Kind() {
-			case constant.Bool:
-				return constant.BoolVal(t.Value), ""
-			case constant.Int:
-				k, _ := constant.Int64Val(t.Value)
-				return k, ""
-			}
-			return nil, "constant kind"
-		case *ssa.UnOp:
-			if t.Op == token.MUL {
-				if fr, ok := eng.AsField(t.X); ok {
-					switch fr.Field {
-					case "mode":
-						return mode, ""
-					case "Type":
-						return "elementnode", ""
-					}
-				}
-				return nil, "load of " + t.X.String()
-			}
-			if t.Op == token.NOT {
-				x, e := eval(t.X)
-				if e != "" {
-					return nil, e
-				}
-				return !x.(bool), ""
-			}
-		case *ssa.BinOp:
-			x, e := eval(t.X)
-			if e != "" {
-				return nil, e
-			}
-			y, e := eval(t.Y)
-			if e != "" {
-				return nil, e
-			}
-			if x == "elementnode" || y == "elementnode" {
-				// n.Type compared with html.ElementNode: the node is an element
-				return t.Op == token.EQL, ""
-			}
-			xi, ok1 := x.(int64)
-			yi, ok2 := y.(int64)
-			if !ok1 || !ok2 {
-				return nil, "non-integer comparison"
-			}
-			switch t.Op {
-			case token.EQL:
-				return xi == yi, ""
-			case token.NEQ:
-				return xi != yi, ""
-			case token.LSS:
-				return xi < yi, ""
-			case token.LEQ:
-				return xi <= yi, ""
-			case token.GTR:
-				return xi > yi, ""
-			case token.GEQ:
-				return xi >= yi, ""
-			}
-			return nil, "operator " + t.Op.String()
-		case *ssa.Call:
-			n := eng.CalleeName(t)
+		var prev *ssa.BasicBlock
+		b := fr.fn.Blocks[0]
+		env := map[ssa.Value]any{}
+		var eval func(v ssa.Value) (any, string)
+		call := func(df decisionFunc, args []ssa.Value) (any, string) {
+			n := eng.FuncName(df.fn)
 			for k, val := range preds {
 				if strings.HasSuffix(n, k) {
 					return val, ""
 				}
 			}
-			return nil, "call to " + n
-		case *ssa.Phi:
-			for i, p := range t.Block().Preds {
-				if p == prev {
-					return eval(t.Edges[i])
-				}
+			if df.fn.Blocks == nil || !eng.InModule(df.fn) {
+				return nil, "call to " + n
 			}
-			return nil, "phi without predecessor"
+			nf := &decisionFrame{fn: df.fn}
+			for _, a := range args {
+				v, _ := eval(a) // unknown arguments stay nil; they fail only if the callee needs them
+				nf.args = append(nf.args, v)
+			}
+			for _, bv := range df.bind {
+				var v any
+				if df.env != nil {
+					// evaluated lazily in the frame that made the closure: only mode-typed captures matter
+					if isModeType(bv.Type()) {
+						v = mode
+					}
+				}
+				nf.free = append(nf.free, v)
+			}
+			return run(nf, depth+1)
 		}
-		return nil, fmt.Sprintf("%T", v)
-	}
-	for steps := 0; steps < 200; steps++ {
-		// phis first (they depend on prev)
-		for _, in := range b.Instrs {
-			if ph, ok := in.(*ssa.Phi); ok {
-				v, e := eval(ph)
+		eval = func(v ssa.Value) (any, string) {
+			if x, ok := env[v]; ok {
+				return x, ""
+			}
+			switch t := v.(type) {
+			case *ssa.Const:
+				if t.Value == nil {
+					return nil, "nil constant"
+				}
+				switch t.Value.Kind() {
+				case constant.Bool:
+					return constant.BoolVal(t.Value), ""
+				case constant.Int:
+					k, _ := constant.Int64Val(t.Value)
+					return k, ""
+				}
+				return nil, "constant kind"
+			case *ssa.Parameter:
+				if isModeType(t.Type()) {
+					return mode, ""
+				}
+				for i, p := range fr.fn.Params {
+					if p == t && i < len(fr.args) && fr.args[i] != nil {
+						return fr.args[i], ""
+					}
+				}
+				return nil, "parameter " + t.Name()
+			case *ssa.FreeVar:
+				if isModeType(t.Type()) {
+					return mode, ""
+				}
+				return nil, "captured " + t.Name()
+			case *ssa.Function:
+				return decisionFunc{fn: t}, ""
+			case *ssa.MakeClosure:
+				f, _ := t.Fn.(*ssa.Function)
+				return decisionFunc{fn: f, bind: t.Bindings, env: fr}, ""
+			case *ssa.ChangeType:
+				return eval(t.X)
+			case *ssa.UnOp:
+				if t.Op == token.MUL {
+					if f, ok := eng.AsField(t.X); ok {
+						switch f.Field {
+						case "mode":
+							return mode, ""
+						case "Type":
+							return "elementnode", ""
+						}
+						// a function-typed field set once by the constructor: the value stored there, evaluated
+						// for this mode
+						if _, isSig := t.Type().Underlying().(*types.Signature); isSig {
+							if fa, ok := t.X.(*ssa.FieldAddr); ok {
+								sts := eng.FieldStoresInPkg(fa)
+								if len(sts) == 1 {
+									sf := &decisionFrame{fn: sts[0].Parent()}
+									sub := fr
+									fr = sf
+									x, e := eval(sts[0].Val)
+									fr = sub
+									return x, e
+								}
+							}
+						}
+					}
+					if fv, ok := t.X.(*ssa.FreeVar); ok && isModeType(t.Type()) {
+						_ = fv
+						return mode, ""
+					}
+					return nil, "load of " + t.X.String()
+				}
+				if t.Op == token.NOT {
+					x, e := eval(t.X)
+					if e != "" {
+						return nil, e
+					}
+					bv, ok := x.(bool)
+					if !ok {
+						return nil, "! on a non-boolean"
+					}
+					return !bv, ""
+				}
+			case *ssa.BinOp:
+				x, e := eval(t.X)
 				if e != "" {
-					return false, e
+					return nil, e
 				}
-				env[ph] = v
+				y, e := eval(t.Y)
+				if e != "" {
+					return nil, e
+				}
+				if x == "elementnode" || y == "elementnode" {
+					// n.Type compared with html.ElementNode: the node is an element
+					return t.Op == token.EQL, ""
+				}
+				xi, ok1 := x.(int64)
+				yi, ok2 := y.(int64)
+				if !ok1 || !ok2 {
+					return nil, "non-integer comparison"
+				}
+				switch t.Op {
+				case token.EQL:
+					return xi == yi, ""
+				case token.NEQ:
+					return xi != yi, ""
+				case token.LSS:
+					return xi < yi, ""
+				case token.LEQ:
+					return xi <= yi, ""
+				case token.GTR:
+					return xi > yi, ""
+				case token.GEQ:
+					return xi >= yi, ""
+				}
+				return nil, "operator " + t.Op.String()
+			case *ssa.Call:
+				if g := eng.StaticCallee(t); g != nil {
+					return call(decisionFunc{fn: g}, t.Call.Args)
+				}
+				if t.Call.IsInvoke() {
+					return nil, "call to " + eng.CalleeName(t)
+				}
+				fv, e := eval(t.Call.Value)
+				if e != "" {
+					return nil, "call to dynamic (" + e + ")"
+				}
+				df, ok := fv.(decisionFunc)
+				if !ok || df.fn == nil {
+					return nil, "call to dynamic"
+				}
+				return call(df, t.Call.Args)
+			case *ssa.Phi:
+				for i, p := range t.Block().Preds {
+					if p == prev {
+						return eval(t.Edges[i])
+					}
+				}
+				return nil, "phi without predecessor"
 			}
+			return nil, fmt.Sprintf("%T", v)
 		}
-		last := b.Instrs[len(b.Instrs)-1]
-		switch t := last.(type) {
-		case *ssa.Return:
-			v, e := eval(t.Results[0])
-			if e != "" {
-				return false, e
+		for steps := 0; steps < 200; steps++ {
+			// phis first (they depend on prev)
+			for _, in := range b.Instrs {
+				if ph, ok := in.(*ssa.Phi); ok {
+					v, e := eval(ph)
+					if e != "" {
+						return nil, e
+					}
+					env[ph] = v
+				}
 			}
-			return v.(bool), ""
-		case *ssa.If:
-			v, e := eval(t.Cond)
-			if e != "" {
-				return false, e
-			}
-			prev = b
-			if v.(bool) {
+			last := b.Instrs[len(b.Instrs)-1]
+			switch t := last.(type) {
+			case *ssa.Return:
+				if len(t.Results) != 1 {
+					return nil, "result count"
+				}
+				return eval(t.Results[0])
+			case *ssa.If:
+				v, e := eval(t.Cond)
+				if e != "" {
+					return nil, e
+				}
+				bv, ok := v.(bool)
+				if !ok {
+					return nil, "non-boolean condition"
+				}
+				prev = b
+				if bv {
+					b = b.Succs[0]
+				} else {
+					b = b.Succs[1]
+				}
+			case *ssa.Jump:
+				prev = b
 				b = b.Succs[0]
-			} else {
-				b = b.Succs[1]
+			default:
+				return nil, fmt.Sprintf("terminator %T", last)
 			}
-		case *ssa.Jump:
-			prev = b
-			b = b.Succs[0]
-		default:
-			return false, fmt.Sprintf("terminator %T", last)
-		}
-		// values computed in a block are re-evaluated lazily; clear non-phi cache so loops/phis re-evaluate
-		for k := range env {
-			if _, isPhi := k.(*ssa.Phi); !isPhi {
-				delete(env, k)
+			// values computed in a block are re-evaluated lazily; clear non-phi cache so loops/phis re-evaluate
+			for k := range env {
+				if _, isPhi := k.(*ssa.Phi); !isPhi {
+					delete(env, k)
+				}
 			}
 		}
+		return nil, "did not terminate"
 	}
-	return false, "did not terminate"
+	v, e := run(&decisionFrame{fn: fn}, 0)
+	if e != "" {
+		return false, e
+	}
+	bv, ok := v.(bool)
+	if !ok {
+		return false, "the decision is not a boolean"
+	}
+	return bv, ""
 }
 
 func ruleModeMonotone(c *eng.Ctx) {
@@ -222,7 +342,7 @@ func ruleModeMonotone(c *eng.Ctx) {
 
 func ruleModeReads(c *eng.Ctx) {
 	const R = "R19.2-MODE-READS"
-	c.Rule(R, "the exclusionChecker.mode field is read only in shouldExclude and written only by the constructor", 2, 0)
+	c.Rule(R, "the exclusionChecker.mode field is read only in shouldExclude and written only by the constructor", 1, 0)
 	for _, fn := range c.P.ModuleFuncs() {
 		if fn.Pkg == nil || eng.ShortPath(fn.Pkg.Pkg.Path()) != "htmldoc" {
 			continue
